@@ -105,6 +105,25 @@ class Sut(object):
     def arg(self, lru, as_str):
         return lru.decode(self.cfg.get("encoding", "utf-8")) if as_str else lru
 
+    def Q(self, lru):
+        """Query argument: the API accepts text too (encoded with the index encoding); pass it as text now
+        and then when it round-trips."""
+        r = getattr(self, "_qrng", None)
+        if r is None or r.random() > 0.25:
+            return lru
+        enc = self.cfg.get("encoding", "utf-8")
+        try:
+            t_ = lru.decode(enc)
+            if t_.encode(enc) == lru:
+                self.stats["text_arguments_in_queries"] += 1
+                return t_
+        except Exception:
+            pass
+        return lru
+
+    def QL(self, lrus):
+        return [self.Q(x) for x in lrus]
+
     def gid_of(self, prefix):
         return self.m.we.get(prefix)
 
@@ -202,8 +221,9 @@ class Sut(object):
                 self._bind_report(r, out, k)
             elif k == "batch":
                 data = {}
-                for s, ts in op["data"]:
-                    data[s] = list(ts)
+                a = op.get("as_str")
+                for s_, ts in op["data"]:
+                    data[self.arg(s_, a)] = [self.arg(x, a) for x in ts]
                 r = t.index_batch_crawl(data, yield_frequency=op.get("yf", 50))
                 n = m.batch(op["data"])
                 self._check_new_pages(r, n, out, k)
@@ -231,7 +251,10 @@ class Sut(object):
                 if gid is None or not ps:
                     self.stats["ops_skipped"] += 1
                     return out
-                t.delete_webentity(self.idmap[gid], list(ps))
+                if op.get("unchecked"):
+                    t.delete_webentity(self.idmap[gid], list(ps), check_for_corruption=False)
+                else:
+                    t.delete_webentity(self.idmap[gid], list(ps))
                 for p in ps:
                     del m.we[p]
             elif k == "addp":
@@ -272,10 +295,11 @@ class Sut(object):
                 if src is None or dst is None:
                     self.stats["ops_skipped"] += 1
                     return out
+                mv = t.move_prefix_to_webentity_from_webentity if op.get("alias") else t.move_prefix_to_webentity
                 if op.get("with_src", True):
-                    t.move_prefix_to_webentity(p, self.idmap[dst], self.idmap[src])
+                    mv(p, self.idmap[dst], self.idmap[src])
                 else:
-                    t.move_prefix_to_webentity(p, self.idmap[dst])
+                    mv(p, self.idmap[dst])
                 m.we[p] = dst
             elif k in ("bad_delete", "bad_rmp", "bad_mvp"):
                 # requests the library must refuse with its own error, leaving the attachments as they are
@@ -423,6 +447,7 @@ class Sut(object):
             return out
         props = set(props)
         t, m = self.t, self.m
+        self._qrng = rng
         self.stats["audits"] += 1
         dec = None
         if props & {"C01", "C02", "C03", "C04", "C06", "C12", "C19", "C13"}:
@@ -573,7 +598,7 @@ class Sut(object):
             pages = pages[:60]
         for p in pages:
             for ib, ii, io in SWITCHES7:
-                got = t.get_page_links(p, include_inbound=bool(ib), include_internal=bool(ii), include_outbound=bool(io))
+                got = t.get_page_links(self.Q(p), include_inbound=bool(ib), include_internal=bool(ii), include_outbound=bool(io))
                 e = []
                 for x, c in outs[p].items():
                     if (x == p and ii) or (x != p and io):
@@ -672,11 +697,11 @@ class Sut(object):
         for q in self.queries(rng):
             ew, ep = m.resolve(q)
             try:
-                gw = self.tr(t.retrieve_webentity(q))
+                gw = self.tr(t.retrieve_webentity(self.Q(q)))
             except TraphException:
                 gw = None
             try:
-                gp = t.retrieve_prefix(q)
+                gp = t.retrieve_prefix(self.Q(q))
             except TraphException:
                 gp = None
             self.stats["C04_resolutions"] += 1
@@ -694,7 +719,7 @@ class Sut(object):
             ps = list(ps)
             rng.shuffle(ps)
             w = self.idmap[gid]
-            got = t.get_webentity_pages(w, ps)
+            got = t.get_webentity_pages(w, self.QL(ps))
             exp = m.we_pages(gid, owner)
             gl = [x["lru"] for x in got]
             union.update(gl)
@@ -719,7 +744,7 @@ class Sut(object):
             out.append(D(["C06"], "rule-anchors", got=sorted(dec.rules)[:5], expected=sorted(m.flags)[:5]))
         for q in self.queries(rng):
             w0 = M.WRITES[0]
-            got = t.get_potential_prefix(q)
+            got = t.get_potential_prefix(self.Q(q))
             exp = m.potential(q)
             self.stats["C06_potential"] += 1
             if M.WRITES[0] != w0:
@@ -777,7 +802,7 @@ class Sut(object):
             w = self.idmap[gid]
             for ib, ii, io in SWITCHES7:
                 got = Counter()
-                lst = t.get_webentity_pagelinks(w, ps, include_inbound=bool(ib), include_internal=bool(ii), include_outbound=bool(io))
+                lst = t.get_webentity_pagelinks(w, self.QL(ps), include_inbound=bool(ib), include_internal=bool(ii), include_outbound=bool(io))
                 for s, x, wt in lst:
                     got[(s, x)] += wt
                 e = m.we_pagelinks(gid, ii, io, ib, owner)
@@ -797,6 +822,12 @@ class Sut(object):
             if gi != citing:
                 out.append(D(["C08"], "citing-webentities", gid=gid, got=sorted(gi, key=repr), expected=sorted(citing)))
                 return
+            # the degree helpers are defined on the returned sets (whatever they contain)
+            ro, ri = t.get_webentity_outlinks(w, ps), t.get_webentity_inlinks(w, ps)
+            dg = (t.get_webentity_outdegree(w, ps), t.get_webentity_indegree(w, ps), t.get_webentity_degree(w, ps))
+            if dg != (len(ro), len(ri), len(ro) + len(ri)):
+                out.append(D(["C08"], "webentity-degree-helpers", gid=gid, got=dg, sets=(len(ro), len(ri))))
+                return
 
     # -- C13
     def audit_C13(self, rng, out, dec, owner, byw):
@@ -805,8 +836,8 @@ class Sut(object):
             ps = list(ps)
             rng.shuffle(ps)
             w = self.idmap[gid]
-            ch = {self.tr(x) for x in t.get_webentity_child_webentities(w, ps)}
-            pa = {self.tr(x) for x in t.get_webentity_parent_webentities(w, ps)}
+            ch = {self.tr(x) for x in t.get_webentity_child_webentities(w, self.QL(ps))}
+            pa = {self.tr(x) for x in t.get_webentity_parent_webentities(w, self.QL(ps))}
             ech = m.children(gid)
             epa = m.parents(gid)
             self.stats["C13_webentities"] += 1
@@ -885,7 +916,7 @@ class Sut(object):
                         below = len(stems(p)) - len(stems(pre))
                         if depth is None or below <= depth:
                             elig.append(p)
-                    ans = t.get_webentity_most_linked_pages(w, ps, pages_count=k, max_depth=depth)
+                    ans = t.get_webentity_most_linked_pages(w, self.QL(ps), pages_count=k, max_depth=depth)
                     self.stats["C20_answers"] += 1
                     if any(ind[p] == 0 for p in elig):
                         self.stats["C20_answers_with_unlinked_eligible"] += 1
